@@ -332,7 +332,7 @@ class Engine:
                     self.resumes_in_wait += 1
                 rec.result = proc.resume(['rv', rec.wait_no, rec.resume_no])
             elif kind == 'fail':
-                exc = programs.ProgramError(action.get('msg', 'env-fail'))
+                exc = programs.program_error(action.get('exc'), action.get('msg', 'env-fail'))
                 self.world.program_errors.append(exc)
                 rec.result = proc.fail(exc, None)
             elif kind == 'cancel':
@@ -362,7 +362,7 @@ class Engine:
                         value = programs.UncopyableValue()  # e.g. a handle to a live resource: can be neither copied nor pickled
                     rec.result = future.set_result(value)
                 elif action['how'] == 'exc':
-                    exc = programs.ProgramError(f"future {action['fut']} failed")
+                    exc = programs.program_error(action.get('exc'), f"future {action['fut']} failed")
                     self.world.program_errors.append(exc)
                     self.world.awaitable_errors[action['fut']] = exc
                     rec.result = future.set_exception(exc)
